@@ -34,7 +34,8 @@ var (
 // fchan is the instrumented in-memory channel handed to the server (or client)
 // under test. Recv returns what the scenario feeds; Send and Close are logged.
 type fchan struct {
-	widen bool // racing mode: yield inside Send/Close
+	closeErr bool // Close returns an error (after closing)
+	widen    bool // racing mode: yield inside Send/Close
 
 	log     *logger
 	feeds   chan feedItem
@@ -132,6 +133,11 @@ func (c *fchan) Close() error {
 	c.log.obs("close")
 	if first {
 		close(c.closed)
+	}
+	if c.closeErr {
+		// the channel's Close reports a failure of its own (a final flush that fails, say): the cause that
+		// stopped the owner stands
+		return errors.New("fchan: close failed (broken pipe)")
 	}
 	return nil
 }
